@@ -22,7 +22,7 @@ type RxOpt struct {
 	NoCasePairs bool
 	// NoQuoteAfterBackslash: never put a double quote directly after a literal backslash (open known finding D4)
 	NoQuoteAfterBackslash bool
-	MaxDepth   int
+	MaxDepth              int
 }
 
 var litLower = []string{"a", "b", "c", "d", "e", "a", "b", "ab", "abc", "x", "y", "z", "foo", "bar", "k", "s", "0", "1", "9", "_", "-", "/", ":", ";", "=", "<", ">", "@", "!", "%", "&", "'", ",", "~", "`", "#"}
